@@ -16,6 +16,7 @@ Verdict(r) ==
     [] r.kind = "conn" -> IF Len(r.parsed) >= 1 /\ r.parsed[Len(r.parsed)].bytes = r.block
                              /\ r.parsed[Len(r.parsed)].cfg = r.cfg /\ r.parsed[Len(r.parsed)].log = r.log
                           THEN "ok" ELSE "traffic-log-does-not-reassemble"
+    [] r.kind = "session" -> IF r.parsed_back = r.expected THEN "ok" ELSE "snapshot-log-does-not-parse-back"
     [] r.kind = "load" -> IF Len(r.bytes) = 1024 /\ (r.connected \/ r.lossy) /\ (r.connected => r.served = r.bytes)
                           THEN "ok" ELSE "shipped-snapshot-not-served-unchanged"
     [] OTHER -> "unknown-kind"
